@@ -2975,3 +2975,330 @@ twin('C05-twin-dense-rows-vectorised', 'C05',
      [(_AI, "        for ii, idx in enumerate(meta_sort):\n"
        "            output[idx, :] = raw[ii, :]\n",
        "        output[meta_sort, :] = raw\n")])
+
+# ======================================================================
+# C11 -- reference markers (structural part)
+# ======================================================================
+_ST = P+'utils/stats_utils.py'
+_SCO = P+'diff_exp/scores.py'
+_PM = P+'diff_exp/p_value_mask.py'
+_PMK = P+'diff_exp/p_value_markers.py'
+_MK = P+'diff_exp/markers.py'
+mutant('C11-pooled-standard-error', 'C11',
+       'standard error uses the sum of the variances over the sum of n',
+       [(_ST, "    nu_num = var1/n1 + var2/n2\n",
+         "    nu_num = (var1 + var2)/(n1 + n2)\n")],
+       'R-ARITH/welch', 'standard-error')
+mutant('C11-dof-n-minus-one-dropped', 'C11',
+       'degrees of freedom divide by n^3 instead of n^2 (n - 1)',
+       [(_ST, "    nu_denom = ((var1**2)/(n1**3-n1**2)+(var2**2)/(n2**3-n2**2))\n",
+         "    nu_denom = ((var1**2)/(n1**3)+(var2**2)/(n2**3))\n")],
+       'R-ARITH/welch', 'degrees-of-freedom')
+twin('C11-twin-dof-factored', 'C11',
+     'degrees of freedom written with n^2 (n - 1)',
+     [(_ST, "    nu_denom = ((var1**2)/(n1**3-n1**2)+(var2**2)/(n2**3-n2**2))\n",
+       "    nu_denom = (var1*var1/(n1*n1*(n1-1))\n"
+       "                + var2*var2/(n2*n2*(n2-1)))\n")])
+mutant('C11-one-sided-p', 'C11',
+       'exact test reports the lower tail only',
+       [(_ST, "        ceil = 1.0-f_info.epsneg\n        cdf = np.clip(cdf, eps, ceil)\n\n"
+         "        pval = np.where(cdf < 0.5, 2.0*cdf, 2.0*(1.0-cdf))\n"
+         "    return (tt, nu, pval)\n\n\ndef approximate_welch_t_test(\n",
+         "        ceil = 1.0-f_info.epsneg\n        cdf = np.clip(cdf, eps, ceil)\n\n"
+         "        pval = np.where(cdf < 0.5, 2.0*cdf, 1.0)\n"
+         "    return (tt, nu, pval)\n\n\ndef approximate_welch_t_test(\n")],
+       'R-ARITH/two-sided-p', 'exact_welch_t_test')
+mutant('C11-nan-cdf-kept', 'C11',
+       'non-finite CDF values are no longer replaced by 0.5 (exact test)',
+       [(_ST, "        cdf = scipy_stats.t.cdf(tt, df=nu)\n"
+         "        cdf = np.where(np.isfinite(cdf), cdf, 0.5)\n",
+         "        cdf = scipy_stats.t.cdf(tt, df=nu)\n")],
+       'R-ARITH/two-sided-p', 'nan-is-half')
+twin('C11-twin-two-sided-by-minimum', 'C11',
+     'two-sided p-value written with the tails swapped in the where',
+     [(_ST, "        ceil = 1.0-f_info.epsneg\n        cdf = np.clip(cdf, eps, ceil)\n\n"
+       "        pval = np.where(cdf < 0.5, 2.0*cdf, 2.0*(1.0-cdf))\n"
+       "    return (tt, nu, pval)\n\n\ndef approximate_welch_t_test(\n",
+       "        ceil = 1.0-f_info.epsneg\n        cdf = np.clip(cdf, eps, ceil)\n\n"
+       "        pval = np.where(cdf >= 0.5, 2.0*(1.0-cdf), cdf*2.0)\n"
+       "    return (tt, nu, pval)\n\n\ndef approximate_welch_t_test(\n")])
+mutant('C11-holm-multiplier-off-by-one', 'C11',
+       'Holm multipliers start at m + 1',
+       [(_ST, "    t_denom = n_p+padding+1-np.arange(1, n_p+1, dtype=int)\n",
+         "    t_denom = n_p+padding+1-np.arange(0, n_p, dtype=int)\n")],
+       'R-ARITH/holm', 'multiplier')
+mutant('C11-holm-padding-ignored', 'C11',
+       'Holm multipliers ignore the p-values left out',
+       [(_ST, "    t_denom = n_p+padding+1-np.arange(1, n_p+1, dtype=int)\n",
+         "    t_denom = n_p+1-np.arange(1, n_p+1, dtype=int)\n")],
+       'R-ARITH/holm', 'multiplier')
+twin('C11-twin-holm-multiplier-rewritten', 'C11',
+     'Holm multipliers written as m - arange(n)',
+     [(_ST, "    t_denom = n_p+padding+1-np.arange(1, n_p+1, dtype=int)\n",
+       "    m_tot = n_p + padding\n"
+       "    t_denom = m_tot - np.arange(n_p)\n")])
+mutant('C11-holm-running-minimum', 'C11',
+       'running minimum instead of running maximum',
+       [(_ST, "    corrected_p = np.maximum.accumulate(ttest_metric[sorted_t]*t_denom)\n",
+         "    corrected_p = np.minimum.accumulate(ttest_metric[sorted_t]*t_denom)\n")],
+       'R-ARITH/holm', 'running-maximum')
+mutant('C11-holm-not-put-back', 'C11',
+       'corrected p-values returned in sorted order',
+       [(_ST, "    ordered_p[sorted_t] = corrected_p\n",
+         "    ordered_p[:] = corrected_p\n")],
+       'R-ARITH/holm', 'put-back')
+mutant('C11-restricted-holm-no-padding', 'C11',
+       'restricted Holm does not count the p-values it leaves out',
+       [(_ST, "        padding=len(result)-len(interesting_idx))\n",
+         "        padding=0)\n")],
+       'R-ARITH/holm-restricted', 'padding')
+mutant('C11-validity-or', 'C11',
+       'validity is p-value test OR penetrance',
+       [(_SCO, "        validity_mask = np.logical_and(\n"
+         "            pvalue_valid,\n            penetrance_mask)\n",
+         "        validity_mask = np.logical_or(\n"
+         "            pvalue_valid,\n            penetrance_mask)\n")],
+       'R-ARITH/validity-conjunction', 'score_differential_genes')
+mutant('C11-p-threshold-doubled', 'C11',
+       'p-values tested against twice the threshold',
+       [(_SCO, "    pvalue_valid = (pvalues < p_th)\n",
+         "    pvalue_valid = (pvalues < 2*p_th)\n")],
+       'R-ARITH/validity-conjunction', 'score_differential_genes')
+twin('C11-twin-validity-by-operator', 'C11',
+     'conjunction written with &',
+     [(_SCO, "        validity_mask = np.logical_and(\n"
+       "            pvalue_valid,\n            penetrance_mask)\n",
+       "        validity_mask = penetrance_mask & pvalue_valid\n")])
+mutant('C11-direction-reversed-in-mask-route', 'C11',
+       'mask route sets up where the first cluster is higher',
+       [(_PMK, "        up_mask[stats_2[\"mean\"] > stats_1[\"mean\"]] = True\n",
+         "        up_mask[stats_1[\"mean\"] > stats_2[\"mean\"]] = True\n")],
+       'R-ARITH/direction', '_find_markers_from_p_mask_worker')
+mutant('C11-down-set-not-complement', 'C11',
+       'down set is every valid gene',
+       [(_MK, "            np.logical_and(validity_mask,\n"
+         "                           np.logical_not(up_mask)))[0].astype(idx_dtype)\n",
+         "            validity_mask)[0].astype(idx_dtype)\n")],
+       'R-ARITH/direction', 'sets')
+mutant('C11-min-cells-one', 'C11',
+       'default minimum cell count lowered to one',
+       [(_SCO, "        n_cells_min=2,\n", "        n_cells_min=1,\n")],
+       'R-GUARD/two-cells', 'score_differential_genes')
+mutant('C11-min-cells-and', 'C11',
+       'pair refused only when both clusters are too small',
+       [(_SCO, "    if stats_1['n_cells'] < n_cells_min or stats_2['n_cells'] < n_cells_min:\n",
+         "    if stats_1['n_cells'] < n_cells_min and stats_2['n_cells'] < n_cells_min:\n")],
+       'R-GUARD/two-cells', 'score_differential_genes')
+mutant('C11-mask-route-min-cells-removed', 'C11',
+       'mask route no longer skips pairs with a tiny cluster (F7 returns)',
+       [(_PM, "        if (cluster_stats[node_1]['n_cells'] < n_cells_min\n"
+         "                or cluster_stats[node_2]['n_cells'] < n_cells_min):\n"
+         "            continue\n", "")],
+       'R-GUARD/two-cells', '_p_values_worker')
+twin('C11-twin-mask-route-min-cells-locals', 'C11',
+     'mask route cell-count test through locals',
+     [(_PM, "        if (cluster_stats[node_1]['n_cells'] < n_cells_min\n"
+       "                or cluster_stats[node_2]['n_cells'] < n_cells_min):\n"
+       "            continue\n",
+       "        n_1 = cluster_stats[node_1]['n_cells']\n"
+       "        n_2 = cluster_stats[node_2]['n_cells']\n"
+       "        too_small = n_1 < n_cells_min or n_2 < n_cells_min\n"
+       "        if too_small:\n"
+       "            continue\n")])
+mutant('C11-exact-threshold-inclusive-wrong-score', 'C11',
+       'exact test compares qdiff with the q1 threshold',
+       [(_SCO, "    qdiff_valid = (qdiff_score > qdiff_th)\n",
+         "    qdiff_valid = (qdiff_score > q1_th)\n")],
+       'R-ARITH/penetrance', 'exact_penetrance_test')
+mutant('C11-exact-without-fold', 'C11',
+       'exact penetrance ignores the fold-change threshold',
+       [(_SCO, "        fold_valid = (log2_fold > log2_fold_th)\n"
+         "        return np.logical_and(fold_valid, raw_penetrance)\n",
+         "        return raw_penetrance\n")],
+       'R-ARITH/penetrance', 'penetrance_tests:exact')
+mutant('C11-floors-before-relaxation', 'C11',
+       'floors applied before the relaxed genes are admitted',
+       [(_SCO, "        valid = np.zeros(len(absolutely_valid), dtype=bool)\n"
+         "        valid[to_use] = True\n"
+         "        valid[distances['invalid']] = False\n",
+         "        valid = np.zeros(len(absolutely_valid), dtype=bool)\n"
+         "        valid[distances['invalid']] = False\n"
+         "        valid[to_use] = True\n")],
+       'R-ARITH/penetrance', 'floors-last')
+mutant('C11-floor-inclusive', 'C11',
+       'a score on its floor counts as invalid',
+       [(_SCO, "            q1_score < q1_min_th,\n",
+         "            q1_score <= q1_min_th,\n")],
+       'R-ARITH/penetrance', 'floors')
+mutant('C11-distance-zeroed-on-other-threshold', 'C11',
+       'fold term zeroed beyond the floor instead of the threshold',
+       [(_SCO, "    fold_term[log2_fold > log2_fold_th] = 0.0\n",
+         "    fold_term[log2_fold > log2_fold_min_th] = 0.0\n")],
+       'R-ARITH/penetrance', 'term')
+mutant('C11-gene-list-fold-not-masked', 'C11',
+       'genes outside the list keep their fold change',
+       [(_SCO, "        log2_fold[invalid_mask] = -1.0\n", "")],
+       'R-PROV/gene-list', 'penetrance_from_stats')
+mutant('C11-mask-route-gene-list-after-invalid', 'C11',
+       'mask route applies the gene list after the invalid set is formed',
+       [(_PMK, "    if valid_gene_idx is not None:\n"
+         "        penetrance_dist[prior_invalid_genes] = 1.5*bad_dist\n\n"
+         "    invalid = (penetrance_dist >= bad_dist)\n",
+         "    invalid = (penetrance_dist >= bad_dist)\n\n"
+         "    if valid_gene_idx is not None:\n"
+         "        penetrance_dist[prior_invalid_genes] = 1.5*bad_dist\n")],
+       'R-PROV/gene-list', '_get_validity_mask')
+mutant('C11-gene-major-directions-crossed', 'C11',
+       'gene-major table of a direction transposes the other direction\'s pointers',
+       [(_MK, "                    indptr_handle=src[f'sparse_by_pair/{direction}_pair_idx'],\n",
+         "                    indptr_handle=src['sparse_by_pair/up_pair_idx'],\n")],
+       'R-PROV/transposed-table', 'inputs')
+mutant('C11-threshold-not-forwarded', 'C11',
+       'strict q1 threshold not handed to the workers\' scoring call',
+       [(_MK, "                         q1_th=q1_th,\n"
+         "                         qdiff_th=qdiff_th,\n"
+         "                         log2_fold_th=log2_fold_th,\n"
+         "                         q1_min_th=q1_min_th,\n",
+         "                         qdiff_th=qdiff_th,\n"
+         "                         log2_fold_th=log2_fold_th,\n"
+         "                         q1_min_th=q1_min_th,\n")],
+       'R-FWD/parameter-forwarded', 'q1_th')
+
+# ======================================================================
+# C12 -- query marker selection (structural part)
+# ======================================================================
+_SL = P+'marker_selection/selection.py'
+_SP = P+'marker_selection/selection_pipeline.py'
+_MU = P+'marker_selection/utils.py'
+mutant('C12-stops-at-fixed-count', 'C12',
+       'greedy loop also stops once 500 genes are selected',
+       [(_SL, "        if utility_array.max() <= 0:\n            break\n",
+         "        if utility_array.max() <= 0:\n            break\n"
+         "        if len(marker_gene_name_list) >= 500:\n            break\n")],
+       'R-MUST/greedy-exits', 'exit')
+mutant('C12-exit-on-half-filled', 'C12',
+       'greedy loop stops when half the slots are filled',
+       [(_SL, "        if filled_sum == been_filled_size:\n",
+         "        if 2*filled_sum >= been_filled_size:\n")],
+       'R-MUST/greedy-exits', 'exit')
+mutant('C12-stale-exit-test', 'C12',
+       'all-filled test made on the flags of the previous turn',
+       [(_SL, "    while True:\n\n        (been_filled,\n",
+         "    while True:\n        if been_filled.sum() == been_filled_size:\n"
+         "            break\n\n        (been_filled,\n"),
+        (_SL, "        filled_sum = been_filled.sum()\n"
+         "        if filled_sum == been_filled_size:\n"
+         "            # we have found all the genes we need\n"
+         "            break\n", "")],
+       'R-MUST/greedy-exits', 'fresh')
+twin('C12-twin-exit-tests-merged', 'C12',
+     'exit tests written through locals and a negation',
+     [(_SL, "        if utility_array.max() <= 0:\n            break\n\n"
+       "        filled_sum = been_filled.sum()\n"
+       "        if filled_sum == been_filled_size:\n",
+       "        no_more = utility_array.max() <= 0\n"
+       "        if no_more:\n            break\n\n"
+       "        filled_sum = been_filled.sum()\n"
+       "        if not filled_sum != been_filled_size:\n")])
+mutant('C12-target-reached-without-possible', 'C12',
+       'column 0 is declared full on the target alone',
+       [(_SL, "    newly_full_mask[:, 0] = np.logical_and(newly_full_mask[:, 0], are_possible)\n", "")],
+       'R-ARITH/slot-filled', 'possible')
+mutant('C12-possible-one-direction', 'C12',
+       '"possible" when one direction reaches the target',
+       [(_SL, "    are_possible = (are_possible == 2)\n",
+         "    are_possible = (are_possible >= 1)\n")],
+       'R-ARITH/slot-filled', '_get_are_possible')
+mutant('C12-pair-bound-is-target', 'C12',
+       'a pair is full when it holds the target (not twice)',
+       [(_SL, "    tot_maxed = (tot_counts >= 2*n_per_utility)\n",
+         "    tot_maxed = (tot_counts >= n_per_utility)\n")],
+       'R-ARITH/slot-filled', 'twice-the-target')
+twin('C12-twin-pair-bound-rewritten', 'C12',
+     'twice the target written as a sum',
+     [(_SL, "    tot_maxed = (tot_counts >= 2*n_per_utility)\n",
+       "    bound = n_per_utility + n_per_utility\n"
+       "    tot_maxed = (bound <= tot_counts)\n")])
+mutant('C12-utility-not-struck', 'C12',
+       'a selected gene keeps its utility',
+       [(_SL, "    utility_array[chosen_idx] = -1.0\n", "")],
+       'R-SAMEVAL/selected-once', 'struck')
+mutant('C12-name-of-other-index', 'C12',
+       'name recorded for the position in the sorted list',
+       [(_SL, "    marker_gene_name_list.append(marker_gene_array.gene_names[chosen_idx])\n",
+         "    marker_gene_name_list.append(\n"
+         "        marker_gene_array.gene_names[len(marker_gene_name_list)])\n")],
+       'R-SAMEVAL/selected-once', 'name-of-index')
+mutant('C12-desperate-threshold-five', 'C12',
+       'up-front treatment only for pairs with at most five markers',
+       [(_SL, "        n_desperate=n_per_utility)\n",
+         "        n_desperate=5)\n")],
+       'R-COVER/desperate-pairs', 'threshold')
+mutant('C12-desperate-first-marker-only', 'C12',
+       'only the first marker of a desperate pair is taken',
+       [(_SL, "                    chosen_idx=gene_idx,\n"
+         "                    genes_at_a_time=1)\n",
+         "                    chosen_idx=gene_idx,\n"
+         "                    genes_at_a_time=1)\n"
+         "            break\n")],
+       'R-COVER/desperate-pairs', 'every-marker')
+mutant('C12-unthinned-table-for-utility', 'C12',
+       'utility computed on the table before thinning to the query genes',
+       [(_SL, "    marker_gene_array = thin_marker_gene_array_by_gene(\n"
+         "        marker_gene_array=marker_gene_array,\n",
+         "    thinned_array = thin_marker_gene_array_by_gene(\n"
+         "        marker_gene_array=marker_gene_array,\n"),
+        (_SL, "    taxonomy_idx_array = _get_taxonomy_idx(\n"
+         "        taxonomy_tree=taxonomy_tree,\n"
+         "        parent_node=parent_node,\n"
+         "        marker_gene_array=marker_gene_array)\n",
+         "    taxonomy_idx_array = _get_taxonomy_idx(\n"
+         "        taxonomy_tree=taxonomy_tree,\n"
+         "        parent_node=parent_node,\n"
+         "        marker_gene_array=thinned_array)\n"),
+        (_SL, "    (marker_gene_names,\n     summary_log_message) = _run_selection(\n"
+         "        marker_gene_array=marker_gene_array,\n",
+         "    (marker_gene_names,\n     summary_log_message) = _run_selection(\n"
+         "        marker_gene_array=thinned_array,\n")],
+       'R-PROV/query-genes', 'create_utility_array')
+mutant('C12-pairs-of-root', 'C12',
+       'pairs always taken for the root',
+       [(_SL, "    leaf_pairs = taxonomy_tree.leaves_to_compare(\n"
+         "        parent_node=parent_node)\n\n    taxonomy_idx_array = [\n",
+         "    leaf_pairs = taxonomy_tree.leaves_to_compare(\n"
+         "        parent_node=None)\n\n    taxonomy_idx_array = [\n")],
+       'R-PROV/pairs-of-parent', 'pairs')
+mutant('C12-up-counted-in-column-zero', 'C12',
+       'up-regulated markers counted in column 0',
+       [(_SL, "    marker_counts['marker_counts'][full_mask, 1] += 1\n",
+         "    marker_counts['marker_counts'][full_mask, 0] += 1\n")],
+       'R-SAMEVAL/count-columns', 'columns')
+mutant('C12-sign-table-swapped', 'C12',
+       'column 1 handed on as -1',
+       [(_SL, "            [{0: -1, 1: 1}[raw_sign]\n",
+         "            [{0: 1, 1: -1}[raw_sign]\n")],
+       'R-SAMEVAL/count-columns', 'sign-of-column')
+mutant('C12-empty-parent-gets-none', 'C12',
+       'a parent without pairs gets None instead of []',
+       [(_SP, "                'n_genes': 0,\n"
+         "                'msg': 'Skipping; no leaf nodes to compare'}\n"
+         "        output_dict[parent_node] = []\n        return\n",
+         "                'n_genes': 0,\n"
+         "                'msg': 'Skipping; no leaf nodes to compare'}\n"
+         "        return\n")],
+       'R-GUARD/no-pairs-no-markers', '_marker_selection_worker')
+mutant('C12-override-of-other-parent', 'C12',
+       'override looked up for the previously chosen parent',
+       [(_SP, "                        this_n_per = n_per_utility_override[chosen_parent]\n",
+         "                        this_n_per = n_per_utility_override[parent]\n")],
+       'R-PROV/target-override', 'n_per_utility')
+twin('C12-twin-override-by-get', 'C12',
+     'override test written with locals',
+     [(_SP, "                this_n_per = n_per_utility\n"
+       "                if n_per_utility_override is not None:\n"
+       "                    if chosen_parent in n_per_utility_override:\n"
+       "                        this_n_per = n_per_utility_override[chosen_parent]\n",
+       "                this_n_per = n_per_utility\n"
+       "                overrides = n_per_utility_override\n"
+       "                if overrides is not None and chosen_parent in overrides:\n"
+       "                    this_n_per = overrides[chosen_parent]\n")])
